@@ -4,34 +4,434 @@ import BU.Model.Bech32
 namespace Bech32Lemmas
 open Model.Bech32
 
+/-! ### convertbits -/
+
+/-- big-endian value of a digit list in base `2^f` -/
+def val (f : Nat) (l : List Nat) : Nat := l.foldl (fun n x => n * 2 ^ f + x) 0
+
+theorem val_nil (f : Nat) : val f [] = 0 := rfl
+theorem val_snoc (f : Nat) (l : List Nat) (x : Nat) : val f (l ++ [x]) = val f l * 2 ^ f + x := by
+  simp [val, List.foldl_append]
+
+theorem foldl_digits_inj (B : Nat) (l1 l2 : List Nat) (hl : l1.length = l2.length)
+    (h1 : ∀ d ∈ l1, d < B) (h2 : ∀ d ∈ l2, d < B) (a a' : Nat)
+    (h : l1.foldl (fun n x => n * B + x) a = l2.foldl (fun n x => n * B + x) a') : a = a' ∧ l1 = l2 := by
+  induction l1 generalizing l2 a a' with
+  | nil =>
+    cases l2 with
+    | nil => exact ⟨by simpa using h, rfl⟩
+    | cons y ys => simp at hl
+  | cons x xs ih =>
+    cases l2 with
+    | nil => simp at hl
+    | cons y ys =>
+      simp only [List.foldl_cons] at h
+      have hx : x < B := h1 x (by simp)
+      have hy : y < B := h2 y (by simp)
+      obtain ⟨e, rfl⟩ := ih ys (by simpa using hl) (fun d hd => h1 d (by simp [hd]))
+        (fun d hd => h2 d (by simp [hd])) _ _ h
+      have ea : a = a' := by
+        have := congrArg (· / B) e
+        simp only [Nat.mul_comm _ B] at this
+        rwa [Nat.mul_add_div (by omega), Nat.mul_add_div (by omega), Nat.div_eq_of_lt hx, Nat.div_eq_of_lt hy] at this
+      subst ea
+      have : x = y := by omega
+      subst this
+      exact ⟨rfl, rfl⟩
+
+theorem val_inj (t : Nat) (l1 l2 : List Nat) (hl : l1.length = l2.length)
+    (h1 : ∀ d ∈ l1, d < 2 ^ t) (h2 : ∀ d ∈ l2, d < 2 ^ t) (h : val t l1 = val t l2) : l1 = l2 :=
+  (foldl_digits_inj (2 ^ t) l1 l2 hl h1 h2 0 0 h).2
+
+/-- one round of the `convertbits` loop -/
+def cstep (f t : Nat) (st : Option (Nat × Nat × List Nat)) (value : Nat) : Option (Nat × Nat × List Nat) :=
+  match st with
+  | none => none
+  | some (acc, bits, ret) =>
+    if value >>> f ≠ 0 then none
+    else
+      let acc := ((acc <<< f) ||| value) &&& ((1 <<< (f + t - 1)) - 1)
+      let r := convertbits.emit t ((1 <<< t) - 1) acc (bits + f + 1) (bits + f) ret
+      some (acc, r.1, r.2)
+
+theorem convertbits_eq (data : List Nat) (f t : Nat) (pad : Bool) :
+    convertbits data f t pad =
+      match data.foldl (cstep f t) (some (0, 0, [])) with
+      | none => none
+      | some (acc, bits, ret) =>
+        if pad then
+          if bits ≠ 0 then some (ret ++ [(acc <<< (t - bits)) &&& ((1 <<< t) - 1)]) else some ret
+        else if bits ≥ f ∨ ((acc <<< (t - bits)) &&& ((1 <<< t) - 1)) ≠ 0 then none
+        else some ret := by
+  unfold convertbits cstep
+  rfl
+
+theorem mod_shift_mod (N K s t : Nat) (h : s + t ≤ K) : ((N % 2 ^ K) >>> s) % 2 ^ t = (N >>> s) % 2 ^ t := by
+  apply Nat.eq_of_testBit_eq
+  intro i
+  simp only [Nat.testBit_mod_two_pow, Nat.testBit_shiftRight]
+  by_cases hi : i < t
+  · have : s + i < K := by omega
+    simp [hi, this]
+  · simp [hi]
+
+/-- invariant of the inner `emit` loop -/
+def EI (t N T b : Nat) (ret : List Nat) : Prop :=
+  ret.length * t + b = T ∧ (∀ d ∈ ret, d < 2 ^ t) ∧ val t ret = N >>> b
+
+theorem emit_spec (t K N T : Nat) (ht : 1 ≤ t) (fuel b : Nat) (ret : List Nat)
+    (hf : b < fuel) (hb : b ≤ K) (h : EI t N T b ret) :
+    (convertbits.emit t ((1 <<< t) - 1) (N % 2 ^ K) fuel b ret).1 < t ∧
+    EI t N T (convertbits.emit t ((1 <<< t) - 1) (N % 2 ^ K) fuel b ret).1
+      (convertbits.emit t ((1 <<< t) - 1) (N % 2 ^ K) fuel b ret).2 := by
+  induction fuel generalizing b ret with
+  | zero => omega
+  | succ fuel ih =>
+    rw [convertbits.emit]
+    split
+    · rename_i hge
+      apply ih
+      · omega
+      · omega
+      · obtain ⟨h1, h2, h3⟩ := h
+        rw [Nat.one_shiftLeft, Nat.and_two_pow_sub_one_eq_mod, mod_shift_mod _ _ _ _ (by omega)]
+        refine ⟨?_, ?_, ?_⟩
+        · rw [List.length_append, List.length_singleton, Nat.add_mul]; omega
+        · intro d hd
+          rw [List.mem_append, List.mem_singleton] at hd
+          rcases hd with hd | rfl
+          · exact h2 d hd
+          · exact Nat.mod_lt _ (Nat.two_pow_pos t)
+        · rw [val_snoc, h3]
+          have e : N >>> b = (N >>> (b - t)) >>> t := by rw [← Nat.shiftRight_add]; congr 1; omega
+          rw [e, Nat.shiftRight_eq_div_pow _ t]
+          exact Nat.div_add_mod' _ _
+    · exact ⟨by omega, h⟩
+
+/-- invariant of the outer loop after consuming `pre` -/
+def Inv (f t : Nat) (pre : List Nat) (st : Nat × Nat × List Nat) : Prop :=
+  st.1 = val f pre % 2 ^ (f + t - 1) ∧ st.2.1 < t ∧ EI t (val f pre) (pre.length * f) st.2.1 st.2.2
+
+theorem cstep_spec (f t : Nat) (ht : 1 ≤ t) (pre : List Nat) (st : Nat × Nat × List Nat) (v : Nat)
+    (hv : v < 2 ^ f) (h : Inv f t pre st) :
+    ∃ st', cstep f t (some st) v = some st' ∧ Inv f t (pre ++ [v]) st' := by
+  obtain ⟨acc, bits, ret⟩ := st
+  obtain ⟨h1, h2, h3, h4, h5⟩ := h
+  simp only at h1 h2 h3 h4 h5
+  have hv0 : v >>> f = 0 := by rw [Nat.shiftRight_eq_div_pow, Nat.div_eq_of_lt hv]
+  have hacc : ((acc <<< f) ||| v) &&& ((1 <<< (f + t - 1)) - 1) = val f (pre ++ [v]) % 2 ^ (f + t - 1) := by
+    rw [Nat.one_shiftLeft, Nat.and_two_pow_sub_one_eq_mod, ← Nat.shiftLeft_add_eq_or_of_lt hv, Nat.shiftLeft_eq,
+      val_snoc, h1, Nat.add_mod, Nat.mod_mul_mod, ← Nat.add_mod]
+  unfold cstep
+  simp only [hv0, ne_eq, not_true_eq_false, if_false]
+  rw [hacc]
+  have hdiv : val f (pre ++ [v]) >>> f = val f pre := by
+    rw [val_snoc, Nat.shiftRight_eq_div_pow, Nat.add_comm, Nat.add_mul_div_right _ _ (Nat.two_pow_pos f),
+      Nat.div_eq_of_lt hv, Nat.zero_add]
+  have := emit_spec t (f + t - 1) (val f (pre ++ [v])) ((pre ++ [v]).length * f) ht (bits + f + 1) (bits + f) ret
+    (by omega) (by omega)
+    ⟨by rw [List.length_append, List.length_singleton, Nat.add_mul]; omega, h4,
+     by rw [Nat.add_comm bits f, Nat.shiftRight_add, hdiv]; exact h5⟩
+  exact ⟨_, rfl, rfl, this.1, this.2⟩
+
+theorem fold_spec (f t : Nat) (ht : 1 ≤ t) (suf : List Nat) (hs : ∀ v ∈ suf, v < 2 ^ f)
+    (pre : List Nat) (st : Nat × Nat × List Nat) (h : Inv f t pre st) :
+    ∃ st', suf.foldl (cstep f t) (some st) = some st' ∧ Inv f t (pre ++ suf) st' := by
+  induction suf generalizing pre st with
+  | nil => exact ⟨st, rfl, by simpa using h⟩
+  | cons v vs ih =>
+    obtain ⟨st1, e1, i1⟩ := cstep_spec f t ht pre st v (hs v (by simp)) h
+    obtain ⟨st2, e2, i2⟩ := ih (fun w hw => hs w (by simp [hw])) (pre ++ [v]) st1 i1
+    refine ⟨st2, ?_, by simpa using i2⟩
+    rw [List.foldl_cons, e1, e2]
+
+theorem run_spec (f t : Nat) (ht : 1 ≤ t) (data : List Nat) (hs : ∀ v ∈ data, v < 2 ^ f) :
+    ∃ acc bits ret, data.foldl (cstep f t) (some (0, 0, [])) = some (acc, bits, ret) ∧
+      acc = val f data % 2 ^ (f + t - 1) ∧ bits < t ∧ ret.length * t + bits = data.length * f ∧
+      (∀ d ∈ ret, d < 2 ^ t) ∧ val t ret = val f data >>> bits := by
+  obtain ⟨⟨acc, bits, ret⟩, e, i⟩ := fold_spec f t ht data hs [] (0, 0, [])
+    ⟨by simp [val_nil], ht, by simp, by simp, by simp [val_nil]⟩
+  rw [List.nil_append] at i
+  exact ⟨acc, bits, ret, e, i.1, i.2.1, i.2.2.1, i.2.2.2.1, i.2.2.2.2⟩
+
+
+theorem fwd_spec (prog : List Nat) (h : ∀ b ∈ prog, b < 256) :
+    ∃ five, convertbits prog 8 5 true = some five ∧ (∀ d ∈ five, d < 32) ∧
+      ∃ pad, pad < 5 ∧ five.length * 5 = prog.length * 8 + pad ∧ val 5 five = val 8 prog * 2 ^ pad := by
+  obtain ⟨acc, bits, ret, e, h1, h2, h3, h4, h5⟩ := run_spec 8 5 (by decide) prog h
+  rw [convertbits_eq, e]
+  simp only [if_true]
+  by_cases hb : bits = 0
+  · subst hb
+    refine ⟨ret, by simp, h4, 0, by decide, by omega, ?_⟩
+    simpa using h5
+  · refine ⟨_, by simp only [ne_eq, hb, not_false_eq_true, if_true]; rfl, ?_, 5 - bits, by omega, ?_, ?_⟩
+    · intro d hd
+      rw [List.mem_append, List.mem_singleton] at hd
+      rcases hd with hd | rfl
+      · exact h4 d hd
+      · rw [Nat.one_shiftLeft, Nat.and_two_pow_sub_one_eq_mod]
+        exact Nat.mod_lt _ (by decide)
+    · rw [List.length_append, List.length_singleton]; omega
+    · rw [val_snoc, h5, Nat.one_shiftLeft, Nat.and_two_pow_sub_one_eq_mod, h1, Nat.shiftRight_eq_div_pow,
+        Nat.shiftLeft_eq]
+      generalize val 8 prog = N
+      have : bits = 1 ∨ bits = 2 ∨ bits = 3 ∨ bits = 4 := by omega
+      rcases this with rfl | rfl | rfl | rfl <;> simp only [Nat.reducePow, Nat.reduceSub, Nat.reduceAdd] <;> omega
+
+theorem bwd_spec (prog five : List Nat) (h : ∀ b ∈ prog, b < 256) (h5 : ∀ d ∈ five, d < 32)
+    (pad : Nat) (hp : pad < 5) (hl : five.length * 5 = prog.length * 8 + pad)
+    (hv : val 5 five = val 8 prog * 2 ^ pad) : convertbits five 5 8 false = some prog := by
+  obtain ⟨acc, bits, ret, e, h1, h2, h3, h4, h5'⟩ := run_spec 5 8 (by decide) five h5
+  rw [convertbits_eq, e]
+  have hb : bits = pad := by omega
+  have hlen : ret.length = prog.length := by omega
+  subst hb
+  have hret : ret = prog := by
+    apply val_inj 8 _ _ hlen h4 h
+    rw [h5', hv, Nat.shiftRight_eq_div_pow, Nat.mul_div_cancel _ (Nat.two_pow_pos _)]
+  have hz : (acc <<< (8 - bits)) &&& ((1 <<< 8) - 1) = 0 := by
+    rw [Nat.one_shiftLeft, Nat.and_two_pow_sub_one_eq_mod, h1, hv, Nat.shiftLeft_eq]
+    generalize val 8 prog = N
+    have : bits = 0 ∨ bits = 1 ∨ bits = 2 ∨ bits = 3 ∨ bits = 4 := by omega
+    rcases this with rfl | rfl | rfl | rfl | rfl <;> simp only [Nat.reducePow, Nat.reduceSub, Nat.reduceAdd] <;> omega
+  have hn : ¬ (bits ≥ 5 ∨ (acc <<< (8 - bits)) &&& ((1 <<< 8) - 1) ≠ 0) := by
+    rw [hz]; omega
+  simp only [hn, if_false, hret, Bool.false_eq_true]
+
 /-- 8→5 regrouping with padding followed by 5→8 without padding is the identity on byte lists of any length -/
 theorem convertbits_roundtrip (prog : List Nat) (h : ∀ b ∈ prog, b < 256) :
     ∃ five, convertbits prog 8 5 true = some five ∧ (∀ d ∈ five, d < 32) ∧
       five.length = (8 * prog.length + 4) / 5 ∧ convertbits five 5 8 false = some prog := by
-  sorry
+  obtain ⟨five, e, h5, pad, hp, hl, hv⟩ := fwd_spec prog h
+  exact ⟨five, e, h5, by omega, bwd_spec prog five h h5 pad hp hl hv⟩
 
+/-! ### checksum -/
+
+/-- generator contribution selected by `top` -/
+def gsel (c : Consts) (top i : Nat) : Nat := if (top >>> i) &&& 1 ≠ 0 then c.generator.getD i 0 else 0
+
+/-- one round of `polymod` -/
+def pstep (c : Consts) (chk value : Nat) : Nat :=
+  (List.range 5).foldl (fun acc i => acc ^^^ gsel c (chk >>> 25) i)
+    (((chk &&& 0x1FFFFFF) <<< 5) ^^^ value)
+
+theorem polymod_eq (c : Consts) (vs : List Nat) : polymod c vs = vs.foldl (pstep c) 1 := by
+  unfold polymod pstep gsel
+  rfl
+
+theorem foldl_xor_acc (f : Nat → Nat) (l : List Nat) (a : Nat) :
+    l.foldl (fun acc i => acc ^^^ f i) a = a ^^^ l.foldl (fun acc i => acc ^^^ f i) 0 := by
+  induction l generalizing a with
+  | nil => simp
+  | cons x xs ih =>
+    simp only [List.foldl_cons]
+    rw [ih (a ^^^ f x), ih (0 ^^^ f x), Nat.zero_xor, Nat.xor_assoc]
+
+theorem foldl_xor_lt (f : Nat → Nat) (n : Nat) (hf : ∀ i, f i < 2 ^ n) (l : List Nat) (a : Nat) (ha : a < 2 ^ n) :
+    l.foldl (fun acc i => acc ^^^ f i) a < 2 ^ n := by
+  induction l generalizing a with
+  | nil => simpa
+  | cons x xs ih =>
+    simp only [List.foldl_cons]
+    exact ih _ (Nat.xor_lt_two_pow ha (hf x))
+
+def gmask (c : Consts) (top : Nat) : Nat := (List.range 5).foldl (fun acc i => acc ^^^ gsel c top i) 0
+
+theorem pstep_eq (c : Consts) (chk v : Nat) :
+    pstep c chk v = (((chk &&& 0x1FFFFFF) <<< 5) ^^^ v) ^^^ gmask c (chk >>> 25) := by
+  unfold pstep gmask
+  exact foldl_xor_acc _ _ _
+
+theorem gen_eq : specConsts.generator = [0x3b6a57b2, 0x26508e6d, 0x1ea119fa, 0x3d4233dd, 0x2a1462b3] := rfl
+theorem m_eq : specConsts.m = 0x2bc830a3 := rfl
+
+theorem gen_lt (i : Nat) : specConsts.generator.getD i 0 < 2 ^ 30 := by
+  rw [gen_eq]
+  match i with
+  | 0 => simp
+  | 1 => simp
+  | 2 => simp
+  | 3 => simp
+  | 4 => simp
+  | n + 5 => simp
+
+theorem gmask_lt (top : Nat) : gmask specConsts top < 2 ^ 30 := by
+  unfold gmask
+  apply foldl_xor_lt
+  · intro i
+    unfold gsel
+    split
+    · exact gen_lt i
+    · exact Nat.two_pow_pos 30
+  · exact Nat.two_pow_pos 30
+
+theorem pstep_zero_lt (chk : Nat) : pstep specConsts chk 0 < 2 ^ 30 := by
+  rw [pstep_eq]
+  apply Nat.xor_lt_two_pow _ (gmask_lt _)
+  rw [Nat.xor_zero]
+  have : chk &&& 0x1FFFFFF < 2 ^ 25 := Nat.and_lt_two_pow _ (by decide)
+  rw [Nat.shiftLeft_eq]
+  omega
+
+/-- XOR-ing `d < 2^25` into the accumulator and any `x` into the value -/
+theorem pstep_xor (c : Consts) (a d x : Nat) (hd : d < 2 ^ 25) :
+    pstep c (a ^^^ d) x = pstep c a 0 ^^^ ((d <<< 5) ^^^ x) := by
+  rw [pstep_eq, pstep_eq]
+  have h1 : (a ^^^ d) >>> 25 = a >>> 25 := by
+    rw [Nat.shiftRight_xor_distrib, Nat.shiftRight_eq_div_pow d, Nat.div_eq_of_lt hd, Nat.xor_zero]
+  have h2 : d &&& 0x1FFFFFF = d := by
+    have : (0x1FFFFFF : Nat) = 2 ^ 25 - 1 := by decide
+    rw [this, Nat.and_two_pow_sub_one_eq_mod, Nat.mod_eq_of_lt hd]
+  rw [h1, Nat.and_xor_distrib_right, Nat.shiftLeft_xor_distrib, h2, Nat.xor_zero]
+  simp only [Nat.xor_assoc]
+  congr 1
+  rw [Nat.xor_comm (gmask c (a >>> 25)), Nat.xor_assoc]
+
+def hstep (acc x : Nat) : Nat := (acc <<< 5) ^^^ x
+
+theorem foldl_pstep_xor (c : Consts) (xs : List Nat) (hx : ∀ x ∈ xs, x < 32) (hl : xs.length ≤ 6)
+    (a d : Nat) (hd : d < 2 ^ (30 - 5 * xs.length)) :
+    xs.foldl (pstep c) (a ^^^ d) = (List.replicate xs.length 0).foldl (pstep c) a ^^^ xs.foldl hstep d := by
+  induction xs generalizing a d with
+  | nil => simp
+  | cons x xs ih =>
+    simp only [List.length_cons] at hl hd
+    have hx0 : x < 32 := hx x (by simp)
+    have hd25 : d < 2 ^ 25 := Nat.lt_of_lt_of_le hd (Nat.pow_le_pow_right (by decide) (by omega))
+    simp only [List.foldl_cons, List.length_cons, List.replicate_succ]
+    rw [pstep_xor c a d x hd25]
+    apply ih (fun y hy => hx y (by simp [hy])) (by omega)
+    have e : 30 - 5 * xs.length = (30 - 5 * (xs.length + 1)) + 5 := by omega
+    rw [e]
+    apply Nat.xor_lt_two_pow
+    · rw [Nat.shiftLeft_eq, Nat.pow_add]
+      exact Nat.mul_lt_mul_of_pos_right hd (by decide)
+    · exact Nat.lt_of_lt_of_le hx0 (Nat.pow_le_pow_right (by decide) (by omega) : 2 ^ 5 ≤ _)
+
+theorem split5 (n : Nat) : ((n >>> 5) <<< 5) ^^^ (n &&& 31) = n := by
+  apply Nat.eq_of_testBit_eq
+  intro i
+  have : (31 : Nat) = 2 ^ 5 - 1 := by decide
+  rw [this]
+  simp only [Nat.testBit_xor, Nat.testBit_shiftLeft, Nat.testBit_shiftRight, Nat.testBit_and,
+    Nat.testBit_two_pow_sub_one]
+  by_cases h : i < 5
+  · have : ¬ i ≥ 5 := by omega
+    simp [h, this]
+  · have h' : i ≥ 5 := by omega
+    have : 5 + (i - 5) = i := by omega
+    simp [h, h', this]
+
+theorem split5' (n k : Nat) : ((n >>> (k + 5)) <<< 5) ^^^ ((n >>> k) &&& 31) = n >>> k := by
+  rw [Nat.shiftRight_add]
+  exact split5 _
+
+theorem pack_groups (pm : Nat) (h : pm < 2 ^ 30) :
+    ((List.range 6).map fun i => (pm >>> (5 * (5 - i))) &&& 31).foldl hstep 0 = pm := by
+  have r6 : List.range 6 = [0, 1, 2, 3, 4, 5] := by decide
+  have h25 : (pm >>> 25) &&& 31 = pm >>> 25 := by
+    have : (31 : Nat) = 2 ^ 5 - 1 := by decide
+    rw [this, Nat.and_two_pow_sub_one_eq_mod, Nat.shiftRight_eq_div_pow]
+    apply Nat.mod_eq_of_lt
+    omega
+  simp only [r6, List.map_cons, List.map_nil, List.foldl_cons, List.foldl_nil, hstep, Nat.zero_shiftLeft,
+    Nat.zero_xor, Nat.reduceSub, Nat.reduceMul, h25]
+  have := split5' pm 20
+  have := split5' pm 15
+  have := split5' pm 10
+  have := split5' pm 5
+  have := split5' pm 0
+  simp only [Nat.reduceAdd, Nat.shiftRight_zero] at *
+  simp only [*]
+
+set_option linter.unusedVariables false in
 /-- the six checksum symbols make the polymod of the whole word equal the encoding constant: polymod is
 GF(2)-affine in the last six symbols -/
 theorem verify_create (hrp : List Char) (data : List Nat) (hd : ∀ d ∈ data, d < 32) (spec : Enc) :
     verifyChecksum specConsts hrp (data ++ createChecksum specConsts hrp data spec) = some spec ∧
     (∀ d ∈ createChecksum specConsts hrp data spec, d < 32) ∧
     (createChecksum specConsts hrp data spec).length = 6 := by
-  sorry
+  have hlen : (createChecksum specConsts hrp data spec).length = 6 := by
+    simp [createChecksum]
+  have hlt : ∀ d ∈ createChecksum specConsts hrp data spec, d < 32 := by
+    intro d hd
+    simp only [createChecksum, List.mem_map] at hd
+    obtain ⟨i, _, rfl⟩ := hd
+    exact Nat.and_lt_two_pow _ (by decide : 31 < 2 ^ 5)
+  refine ⟨?_, hlt, hlen⟩
+  unfold verifyChecksum
+  have key : polymod specConsts (hrpExpand hrp ++ (data ++ createChecksum specConsts hrp data spec))
+      = if spec = .bech32m then specConsts.m else 1 := by
+    rw [← List.append_assoc, polymod_eq, List.foldl_append]
+    have := foldl_pstep_xor specConsts (createChecksum specConsts hrp data spec) hlt (by omega)
+      (List.foldl (pstep specConsts) 1 (hrpExpand hrp ++ data)) 0 (Nat.two_pow_pos _)
+    rw [Nat.xor_zero] at this
+    rw [this, hlen]
+    have hP : List.foldl (pstep specConsts) (List.foldl (pstep specConsts) 1 (hrpExpand hrp ++ data)) (List.replicate 6 0)
+        = polymod specConsts (hrpExpand hrp ++ data ++ [0,0,0,0,0,0]) := by
+      rw [polymod_eq]; simp only [List.foldl_append]; rfl
+    have hPlt : polymod specConsts (hrpExpand hrp ++ data ++ [0,0,0,0,0,0]) < 2 ^ 30 := by
+      rw [polymod_eq, List.foldl_append]
+      simp only [List.foldl_cons, List.foldl_nil]
+      exact pstep_zero_lt _
+    rw [hP]
+    unfold createChecksum
+    simp only []
+    rw [pack_groups]
+    · rw [← Nat.xor_assoc, Nat.xor_self, Nat.zero_xor]
+    · apply Nat.xor_lt_two_pow hPlt
+      split <;> simp [m_eq]
+  simp only [] 
+  rw [key]
+  cases spec <;> simp [m_eq]
+
+/-! ### charset -/
+
 
 /-- the 32 charset characters are distinct lower-case/digit characters other than '1' -/
 theorem charset_facts :
     specConsts.charset.length = 32 ∧
     (∀ d, d < 32 → specConsts.charset.idxOf (specConsts.charset.getD d '?') = d) ∧
     (∀ ch ∈ specConsts.charset, ch ≠ '1' ∧ lowerC ch = ch ∧ 33 ≤ ch.toNat ∧ ch.toNat ≤ 126) := by
-  sorry
+  refine ⟨by decide, ?_, by decide⟩
+  intro d hd
+  have : ∀ d : Fin 32, specConsts.charset.idxOf (specConsts.charset.getD d.val '?') = d.val := by decide
+  exact this ⟨d, hd⟩
 
-/-- **round trip** for the three kinds of witness program and the three network prefixes: the address
-string produced for (version, program) decodes to exactly (version, program) -/
-theorem decode_encode (hrp : List Char) (hh : hrp = "bc".toList ∨ hrp = "tb".toList ∨ hrp = "bcrt".toList)
-    (v : Nat) (prog : List Nat) (hb : ∀ b ∈ prog, b < 256)
-    (hv : (v = 0 ∧ (prog.length = 20 ∨ prog.length = 32)) ∨ (v = 1 ∧ prog.length = 32)) :
-    ∃ s, encode specConsts hrp v prog = some s ∧ decode specConsts hrp s = some (v, prog) := by
-  sorry
+/-! ### decode -/
+
+theorem rfind1_spec (pre post : List Char) (hp : ∀ ch ∈ post, ch ≠ '1') :
+    rfind1 (pre ++ ['1'] ++ post) = some pre.length := by
+  unfold rfind1
+  have hlen : (pre ++ ['1'] ++ post).length = (pre.length + 1) + post.length := by
+    simp [List.length_append]; omega
+  simp only [hlen]
+  rw [List.range_add, List.range_succ, List.filter_append, List.filter_append]
+  have h1 : List.filter (fun i => (pre ++ ['1'] ++ post).getD i ' ' == '1') [pre.length] = [pre.length] := by
+    simp [List.getD_eq_getElem?_getD]
+  have h2 : List.filter (fun i => (pre ++ ['1'] ++ post).getD i ' ' == '1')
+      (List.map (fun x => pre.length + 1 + x) (List.range post.length)) = [] := by
+    rw [List.filter_eq_nil_iff]
+    intro a ha
+    rw [List.mem_map] at ha
+    obtain ⟨i, hi, rfl⟩ := ha
+    rw [List.mem_range] at hi
+    have : (pre ++ ['1'] ++ post).getD (pre.length + 1 + i) ' ' = post[i] := by
+      rw [List.getD_eq_getElem?_getD, List.getElem?_append_right (by simp)]
+      simp [hi]
+    rw [this]
+    simpa using hp _ (List.getElem_mem hi)
+  rw [h1, h2, List.append_nil, List.getLast?_concat]
+
+theorem bech32Decode_case (c : Consts) (addr : List Char) (r) (h : bech32Decode c addr = some r) :
+    ¬ (addr.map lowerC ≠ addr ∧ addr.map upperC ≠ addr) := by
+  unfold bech32Decode at h
+  split at h
+  · cases h
+  · rename_i hn
+    intro hc
+    exact hn (Or.inr hc)
 
 /-- rejection is built into `decode`: whatever it accepts has the expected prefix, a single case, only
 charset characters after the last '1', and the checksum variant of its version (bech32 for v0, bech32m otherwise) -/
@@ -40,6 +440,158 @@ theorem decode_sound (hrp addr : List Char) (v : Nat) (prog : List Nat) (h : dec
       data.head? = some v ∧ v ≤ 16 ∧ (v = 0 → spec = .bech32) ∧ (v ≠ 0 → spec = .bech32m) ∧
       2 ≤ prog.length ∧ prog.length ≤ 40 ∧ (v = 0 → prog.length = 20 ∨ prog.length = 32) ∧
       ¬ (addr.map lowerC ≠ addr ∧ addr.map upperC ≠ addr) := by
-  sorry
+  unfold decode at h
+  split at h
+  · cases h
+  · rename_i hrpgot data spec hbd
+    have hcase := bech32Decode_case _ _ _ hbd
+    split at h
+    · cases h
+    · rename_i hh
+      split at h
+      · cases h
+      · rename_i decoded hcb
+        split at h
+        · cases h
+        · rename_i hlen
+          split at h
+          · cases h
+          · rename_i v' hv'
+            split at h
+            · cases h
+            · rename_i hv16
+              split at h
+              · cases h
+              · rename_i h0
+                split at h
+                · cases h
+                · rename_i hs
+                  simp only [Option.some.injEq, Prod.mk.injEq] at h
+                  obtain ⟨rfl, rfl⟩ := h
+                  refine ⟨hrpgot, data, spec, hbd, by simpa using hh, hv', by omega, ?_, ?_, by omega, by omega, ?_, hcase⟩
+                  · intro hv0
+                    exact Decidable.byContradiction fun hne => hs (Or.inl ⟨hv0, hne⟩)
+                  · intro hv0
+                    exact Decidable.byContradiction fun hne => hs (Or.inr ⟨hv0, hne⟩)
+                  · intro hv0
+                    omega
+
+
+/-- the character for a 5-bit symbol -/
+theorem charOf_mem (d : Nat) (hd : d < 32) : specConsts.charset.getD d '?' ∈ specConsts.charset := by
+  have hl : d < specConsts.charset.length := by rw [charset_facts.1]; exact hd
+  rw [List.getD_eq_getElem?_getD, List.getElem?_eq_getElem hl]
+  exact List.getElem_mem hl
+
+theorem bech32Decode_encode (hrp : List Char) (hh : ∀ ch ∈ hrp, lowerC ch = ch ∧ 33 ≤ ch.toNat ∧ ch.toNat ≤ 126)
+    (hl1 : 1 ≤ hrp.length) (data : List Nat) (hd : ∀ d ∈ data, d < 32) (spec : Enc)
+    (hlen : hrp.length + 1 + data.length + 6 ≤ 90) :
+    bech32Decode specConsts (bech32Encode specConsts hrp data spec) = some (hrp, data, spec) := by
+  obtain ⟨hv, hclt, hcl⟩ := verify_create hrp data hd spec
+  obtain ⟨cf1, cf2, cf3⟩ := charset_facts
+  have hcomb : ∀ d ∈ data ++ createChecksum specConsts hrp data spec, d < 32 := by
+    intro d hd'
+    rw [List.mem_append] at hd'
+    rcases hd' with h | h
+    · exact hd d h
+    · exact hclt d h
+  generalize hcs : createChecksum specConsts hrp data spec = cs at *
+  unfold bech32Encode
+  simp only [hcs]
+  generalize hpost : (data ++ cs).map (fun d => specConsts.charset.getD d '?') = post
+  have hpost_mem : ∀ ch ∈ post, ch ∈ specConsts.charset := by
+    intro ch hch
+    rw [← hpost, List.mem_map] at hch
+    obtain ⟨d, hd', rfl⟩ := hch
+    exact charOf_mem d (hcomb d hd')
+  have hpost_len : post.length = data.length + 6 := by
+    rw [← hpost, List.length_map, List.length_append, hcl]
+  have hgood : ∀ ch ∈ hrp ++ ['1'] ++ post, lowerC ch = ch ∧ 33 ≤ ch.toNat ∧ ch.toNat ≤ 126 := by
+    intro ch hch
+    rw [List.mem_append, List.mem_append, List.mem_singleton] at hch
+    rcases hch with (h | rfl) | h
+    · exact hh ch h
+    · decide
+    · exact (cf3 ch (hpost_mem ch h)).2
+  have hmap : (hrp ++ ['1'] ++ post).map lowerC = hrp ++ ['1'] ++ post := by
+    conv => rhs; rw [← List.map_id (hrp ++ ['1'] ++ post)]
+    apply List.map_congr_left
+    intro ch hch
+    exact (hgood ch hch).1
+  have hc1 : ¬ ((hrp ++ ['1'] ++ post).any (fun x => x.toNat < 33 ∨ x.toNat > 126) ∨
+      ((hrp ++ ['1'] ++ post).map lowerC ≠ hrp ++ ['1'] ++ post ∧
+       (hrp ++ ['1'] ++ post).map upperC ≠ hrp ++ ['1'] ++ post)) := by
+    rintro (h | h)
+    · rw [List.any_eq_true] at h
+      obtain ⟨x, hx, hx'⟩ := h
+      have := hgood x hx
+      simp only [decide_eq_true_eq] at hx'
+      omega
+    · exact h.1 hmap
+  have hrf : rfind1 (hrp ++ ['1'] ++ post) = some hrp.length :=
+    rfind1_spec hrp post (fun ch hch => (cf3 ch (hpost_mem ch hch)).1)
+  have hc2 : ¬ (hrp.length < 1 ∨ hrp.length + 7 > (hrp ++ ['1'] ++ post).length ∨
+      (hrp ++ ['1'] ++ post).length > 90) := by
+    simp only [List.length_append, List.length_singleton, hpost_len]
+    omega
+  have hdrop : (hrp ++ ['1'] ++ post).drop (hrp.length + 1) = post :=
+    List.drop_left' (by simp)
+  have htake : (hrp ++ ['1'] ++ post).take hrp.length = hrp := by
+    rw [List.append_assoc]; exact List.take_left' rfl
+  have hall : (post.all fun x => specConsts.charset.contains x) = true := by
+    rw [List.all_eq_true]
+    intro x hx
+    exact List.contains_iff_mem.mpr (hpost_mem x hx)
+  have hidx : post.map (fun x => specConsts.charset.idxOf x) = data ++ cs := by
+    rw [← hpost, List.map_map]
+    conv => rhs; rw [← List.map_id (data ++ cs)]
+    apply List.map_congr_left
+    intro d hd'
+    exact cf2 d (hcomb d hd')
+  have htk : (data ++ cs).take ((data ++ cs).length - 6) = data :=
+    List.take_left' (by rw [List.length_append, hcl]; omega)
+  unfold bech32Decode
+  rw [if_neg hc1]
+  simp only [hmap, hrf, if_neg hc2, hdrop, hall, htake, hidx, hv, htk]
+  rfl
+
+theorem hrp_good (hrp : List Char) (hh : hrp = "bc".toList ∨ hrp = "tb".toList ∨ hrp = "bcrt".toList) :
+    (∀ ch ∈ hrp, lowerC ch = ch ∧ 33 ≤ ch.toNat ∧ ch.toNat ≤ 126) ∧ 1 ≤ hrp.length ∧ hrp.length ≤ 4 := by
+  rcases hh with rfl | rfl | rfl <;> decide
+
+/-- **round trip** for the three kinds of witness program and the three network prefixes: the address
+string produced for (version, program) decodes to exactly (version, program) -/
+theorem decode_encode (hrp : List Char) (hh : hrp = "bc".toList ∨ hrp = "tb".toList ∨ hrp = "bcrt".toList)
+    (v : Nat) (prog : List Nat) (hb : ∀ b ∈ prog, b < 256)
+    (hv : (v = 0 ∧ (prog.length = 20 ∨ prog.length = 32)) ∨ (v = 1 ∧ prog.length = 32)) :
+    ∃ s, encode specConsts hrp v prog = some s ∧ decode specConsts hrp s = some (v, prog) := by
+  obtain ⟨five, e5, h5, hl5, eb⟩ := convertbits_roundtrip prog hb
+  obtain ⟨hg, hg1, hg4⟩ := hrp_good hrp hh
+  have hdata : ∀ d ∈ [v] ++ five, d < 32 := by
+    intro d hd
+    rw [List.mem_append, List.mem_singleton] at hd
+    rcases hd with rfl | h
+    · omega
+    · exact h5 d h
+  have hbd := bech32Decode_encode hrp hg hg1 ([v] ++ five) hdata (if v = 0 then Enc.bech32 else Enc.bech32m)
+    (by simp only [List.length_append, List.length_singleton]; omega)
+  have hdec : decode specConsts hrp (bech32Encode specConsts hrp ([v] ++ five) (if v = 0 then Enc.bech32 else Enc.bech32m))
+      = some (v, prog) := by
+    unfold decode
+    rw [hbd]
+    have hdr : ([v] ++ five).drop 1 = five := rfl
+    have hhd : ([v] ++ five).head? = some v := rfl
+    simp only [hdr, eb, hhd, ne_eq, not_true_eq_false, if_false]
+    have c1 : ¬ (prog.length < 2 ∨ prog.length > 40) := by omega
+    have c2 : ¬ (v > 16) := by omega
+    have c3 : ¬ (v = 0 ∧ ¬ prog.length = 20 ∧ ¬ prog.length = 32) := by omega
+    rw [if_neg c1, if_neg c2, if_neg c3]
+    have c4 : ¬ ((v = 0 ∧ ¬ (if v = 0 then Enc.bech32 else Enc.bech32m) = Enc.bech32) ∨
+        (¬ v = 0 ∧ ¬ (if v = 0 then Enc.bech32 else Enc.bech32m) = Enc.bech32m)) := by
+      rcases hv with ⟨rfl, _⟩ | ⟨rfl, _⟩ <;> simp
+    rw [if_neg c4]
+  refine ⟨_, ?_, hdec⟩
+  unfold encode
+  simp only [e5, hdec, Option.isNone_some, Bool.false_eq_true, if_false]
 
 end Bech32Lemmas
